@@ -24,19 +24,19 @@ which = sys.argv[1:]
 TXT = {
  "C16": dict(
    level="fault_enumeration",
-   text="Seeded deterministic simulation of the real write path (WriteTool.execute, atomic_write_octave, CLI write/normalize -o/seal -o) over a real tmpfs sandbox with every file operation interposed. For each swept scenario EVERY operation boundary the code reaches is visited as kill, power-loss and async-exception point and with every errno its class admits (one-shot and sticky), then pairs inside the recovery window, then seeded random multi-fault and two-writer runs. It is enumeration over the operations the current code performs per scenario plus sampling over scenarios; not a proof.",
+   text="Seeded deterministic simulation of the real write path (WriteTool.execute, atomic_write_octave, CLI write/normalize -o/seal -o) over a real tmpfs sandbox with every file operation interposed. For each swept scenario EVERY operation boundary the code reaches is visited as kill, power-loss and async-exception point and with every errno its class admits (one-shot and sticky), then pairs inside the recovery window, then seeded random multi-fault and two-writer runs. The kill model is cross-validated against real SIGKILLed child processes and the seam against seam-less executions on every run. It is enumeration over the operations the current code performs per scenario plus sampling over scenarios; not a proof.",
    note="Trusted: the interposer sees every file operation (cross-checked by a sys.addaudithook observer on every run), the in-process kill model (self-checked: unwinding changes nothing on disk), and the power-loss durability MODEL (ordered metadata, data durable up to last fsync). MCP server dispatch/transport are not exercised.",
    tech="deterministic simulation: interposed file-operation seam + planned single/pair fault sweep + seeded random fault/schedule search, oracle on disk state from outside",
    ref="3"),
  "C17": dict(
    level="exploration",
-   text="Seeded search over (a) sequential histories of write calls and external modifications checked step by step against a register model, (b) interleavings of 2-3 writer processes (real threads parked at every interposed file operation, one baton, schedule from the seed) with the CAS invariant evaluated by the simulator at the instant each os.replace is executed, (c) concurrent/duplicated/reordered tool calls inside one process under a deterministic asyncio loop. Sampling, not enumeration; the two-writer target-operation orders are counted and reported.",
+   text="Seeded search over (a) sequential histories of write calls and external modifications checked step by step against a register model, (b) interleavings of 2-3 writer processes (real threads parked at every interposed file operation, one baton, schedule from the seed) with the CAS invariant evaluated by the simulator at the instant each os.replace is executed, (c) concurrent/duplicated/reordered tool calls inside one process under a deterministic asyncio loop. In addition two sub-spaces the quantifier names are swept completely: every history over {content, changes, normalize, corrections_only, external modification} x base_hash {none, current, stale, future} up to length 3 (quick) / 5 (thorough), and every interleaving of 36 writer pairs at read/lock/replace granularity (depth-first over the schedule tape). Everything else is seeded sampling.",
    note="Trusted: the scheduler is the only source of interleaving (one thread runs at a time), the interposer sees every file operation (audit-hook cross-check), flock is modelled as a blocking point. External programs that do not use the tool are outside the quantifier except as atomic steps of sequential histories.",
    tech="deterministic simulation: baton-scheduled writer processes at file-operation granularity + reference register model + seeded schedule search",
    ref="4"),
  "C19": dict(
    level="exploration",
-   text="Generated file-system layouts (symlinks of every kind incl. dangling and chains, secrets outside the sandbox, HOME cache) and generated path strings / schema names / frozen digests / source URIs are fed to the real tools while the storage seam and an independent audit hook record every path actually opened, created, renamed or removed; an independent lexical classifier decides which paths must be refused. Exhaustive for schema names up to length 3; seeded sampling elsewhere.",
+   text="Generated file-system layouts (symlinks of every kind incl. dangling and chains, secrets outside the sandbox, HOME cache) and generated path strings / schema names / frozen digests / source URIs are fed to the real tools while the storage seam and an independent audit hook record every path actually opened, created, renamed or removed; an independent lexical classifier decides which paths must be refused. Exhaustive for schema names over a 13-character alphabet up to length 4 (quick) / 5 (thorough) and for all ordered pairs of frozen references x entry points x cache tampering in between (each pair served by one forked process, since a resolver may keep state); seeded sampling elsewhere.",
    note="Trusted: seam + audit hook together see every file access of the calling thread; the classifier (lexical walk with lstat) is independent of the code's validators. Races where a component is swapped during the call are out of scope.",
    tech="storage seam as recorder over generated file-system configurations (no schedule or fault dimension: the seam is used as an observer)",
    ref="6"),
@@ -62,9 +62,7 @@ for pid in which:
       "technique": t["tech"],
     })
 na=[{"property_id":k,"reason":v} for k,v in NA.items()]
-PENDING = {"C17":"claimed in DESIGN.md; check under construction in this commit, not yet registered",
-           "C19":"claimed in DESIGN.md; check under construction in this commit, not yet registered",
-           "C06":"claimed in DESIGN.md; check under construction in this commit, not yet registered"}
+PENDING = {}
 for k,v in PENDING.items():
     if k not in which: na.append({"property_id":k,"reason":v})
 na.sort(key=lambda x:x["property_id"])
